@@ -76,6 +76,23 @@ CHECKS['C02'] = dict(
     level_note='Trusted: model snapshot semantics = the statement; foreign live handles only passed to ownsHandle. Self-deadlock would show as a hang (reported after one retry).',
 )
 
+MD = [0x007, 0x038, 0x1c0, 0xe00]
+CHECKS['C04'] = dict(
+    title="dispatch reaches exactly the dispatched event's listeners, arguments intact",
+    level='exploration',
+    rule='12 dispatcher configurations (keys: int, enum class, std::string, OrdKey(<)->std::map, HashKey(hash,==)->unordered_map with 4 buckets; prototypes by value / const& / & ; '
+         'include- and exclude-event forms; getEvent policies reading a field and a by-value movable argument; user map; custom Callback; 3 threading policies) x seeded histories of '
+         'append/prepend/insert/remove/hasAnyListener/ownsHandle/forEach/forEachIf per key over 5 keys (differing only in case/length, empty) interleaved with dispatches whose arguments are '
+         'lvalues, const lvalues and temporaries; listeners consume whatever they receive as rvalues; every listener call is checked (which listener, order, argument fingerprints) online; '
+         'built with g++ AND clang++ (opposite argument evaluation orders); non-trivial = >=1 successful remove and >=1 dispatch reaching >=2 listeners; distinct = trace hash',
+    jobs=JS('drv_dispatch', 'asan', 'c04', 3600, 150000, MD, shards=4) + JS('drv_dispatch', 'clang-asan', 'c04', 3600, 150000, MD, seed_offset=1, shards=4),
+    assumptions=['model M-disp', 'listeners of other keys are observed through the same sink: any call not expected by the dispatch frame is a violation'],
+    technique='online differential monitor over a configuration product, two compilers with opposite argument evaluation order, consuming listeners, ASan+UBSan',
+    level_text='Exploration: each configuration is run on thousands of histories under both compilers; a dispatch that reaches a wrong, missing or extra listener, or hands any listener an argument that '
+               'differs from what the caller supplied (moved-from, truncated, wrong key) is caught at that call.',
+    level_note='Trusted: model, generator; two compilers sample the unspecified-evaluation-order dimension.',
+)
+
 MQ = [0x03, 0x0c, 0x30, 0x40]
 CHECKS['C05'] = dict(
     title='EventQueue consumes every queued event exactly once, in FIFO order',
@@ -114,7 +131,8 @@ CHECKS['C10'] = dict(
          'move-construct, move-assign, swap (also self), destroy/re-create interleaved with the C01/C02 list histories (counters placed far apart through the guarded hook) '
          'and the C05 queue histories; after each such operation the result is enumerated (handles harvested through forEach) and, for queues, emptyQueue/waitFor(0)/enqueue/process '
          'are exercised; all later operations on every pool member stay under the model; non-trivial/distinct as C02/C05',
-    jobs=JS('drv_cblist', 'asan', 'c10', 4000, 150000, M4, shards=4) + JS('drv_queue', 'asan', 'c10', 2100, 80000, MQ, seed_offset=2, shards=4),
+    jobs=JS('drv_cblist', 'asan', 'c10', 4000, 150000, M4, shards=4) + JS('drv_queue', 'asan', 'c10', 2100, 80000, MQ, seed_offset=2, shards=4)
+         + JS('drv_dispatch', 'asan', 'c10', 2400, 80000, MD, seed_offset=3, shards=4),
     assumptions=['content of a moved-from source is not asserted (source is destroyed and re-created)', 'copy/move-assignment into a queue that still has pending events is not generated (the statement does not say what happens to them)'],
     technique='differential runtime monitor with copy/move/swap operations on pre-filled raw storage; ASan+UBSan',
     level_text='Exploration: every copy/move/swap result is checked for content, independence (all later changes to either object are compared with separate models) and full function.',
